@@ -21,8 +21,39 @@ Lemma calib_creader :
                        | Some a, Some b => Nat.eqb (List.length (classes a)) (List.length (classes b)) | _, _ => false end) shipped_W = true.
 Proof. split; vm_compute; reflexivity. Qed.
 
-(* how much of the shipped project lies in the domain of the text-level theorem (no free text with braces / separators) *)
+(* how much of the shipped project lies in the domain of the text-level theorem (free text such as HTML / CSS documentation is
+   inside it since the reader is quote-aware: K-C19-6).  With parse_top_q (no colon in element names) one element is outside:
+   the association OUDfaI6GAqAA8xe8 of TestClassDiagram, whose NAME holds a colon (Const: This should appear in constructor) --
+   the reader cuts the header  id:name:type  at every colon; parse_top_c covers row names with colons (top_pv_c states which
+   entries the header gives then): all 39 + 49 blobs are inside. *)
+Definition in_text_domain (n : wnode) : bool := wf_node n && nbq_node n && quote_ok (print_node n).
+Definition in_text_domain_c (n : wnode) : bool := wf_top n && nbq_node n && quote_ok (print_node n).
 Lemma calib_domain :
-  map (fun W => (List.length (all_nodes W), List.length (filter (fun n => wf_node n && nb_node n && no_char SQ (print_node n)) (all_nodes W)))) shipped_W
-  = [(39, 38); (49, 40)].
+  map (fun W => (List.length (all_nodes W), List.length (filter in_text_domain_c (all_nodes W)), List.length (filter in_text_domain (all_nodes W)))) shipped_W
+  = [(39, 39, 39); (49, 49, 48)]
+  /\ flat_map (fun W => map (fun n => (node_id n, node_name n)) (filter (fun n => negb (in_text_domain n)) (all_nodes W))) shipped_W
+     = [("OUDfaI6GAqAA8xe8", Some "Const: This should appear in constructor")].
+Proof. split; vm_compute; reflexivity. Qed.
+
+(* the former domain (no brace, no apostrophe anywhere) held 38 and 40 of them *)
+Lemma calib_domain_before :
+  map (fun W => List.length (filter (fun n => wf_node n && nb_node n && no_char SQ (print_node n)) (all_nodes W))) shipped_W = [38; 40].
+Proof. vm_compute. reflexivity. Qed.
+
+(* on every shipped element in the domain the reader model returns the dictionary the theorem states (a computed instance) *)
+Fixpoint pv_eqb (a b : UmlBlob.pv) {struct a} : bool :=
+  match a, b with
+  | PStr x, PStr y => String.eqb x y
+  | PDict l, PDict m =>
+      (fix go (l : list (string * UmlBlob.pv)) (m : list (string * UmlBlob.pv)) {struct l} : bool :=
+         match l, m with
+         | [], [] => true
+         | (k, v) :: r, (k', v') :: r' => String.eqb k k' && pv_eqb v v' && go r r'
+         | _, _ => false
+         end) l m
+  | _, _ => false
+  end.
+Lemma calib_parse :
+  forallb (fun W => forallb (fun n => match parse_blob (py_str_bytes (print_node n)) with Some v => pv_eqb v (top_pv_c n) | None => false end)
+                            (filter in_text_domain_c (all_nodes W))) shipped_W = true.
 Proof. vm_compute. reflexivity. Qed.
